@@ -418,8 +418,10 @@ impl Family for ConcFam {
             c01::pipe_params(),
             proptest::collection::vec(0u8..3, 0..40),
             any::<u64>(),
+            // a transport that delivers nothing for a while in the middle of the traffic and recovers
+            proptest::option::weighted(0.2, (any::<bool>(), prop_oneof![Just(0u16), 1u16..3000, any::<u16>()], prop_oneof![Just(1u8), Just(4), Just(6), Just(11), Just(31)])),
         )
-            .prop_map(|(streams, c2s, s2c, yields, draw_seed)| c01::PipeCase { scheme: c01::SchemeSel::Default, streams, c2s, s2c, yields, draw_seed, end_by_close: false, late_readers: false, stall: None })
+            .prop_map(|(streams, c2s, s2c, yields, draw_seed, stall)| c01::PipeCase { scheme: c01::SchemeSel::Default, streams, c2s, s2c, yields, draw_seed, end_by_close: false, late_readers: false, stall })
             .boxed()
     }
     fn run(&self, case: &c01::PipeCase, _cx: &CaseCtx) -> CaseResult {
@@ -428,6 +430,7 @@ impl Family for ConcFam {
         match c01::run_pipe_case(case) {
             Ok(mut o) => {
                 o.nontrivial = case.streams.len() >= 2;
+                o.class_if(case.stall.is_some_and(|s| s.2 >= 6), "transport-stalled>=6s-with-several-streams");
                 Ok(o)
             }
             Err(f) => Err(Fail::new("C02.route", format!("C02.route:{}", f.sig), f.detail)),
